@@ -89,7 +89,7 @@ func (f *MakeArray) Call(s *slip.Scope, args slip.List, depth int) slip.Object {
 		dims = []int{int(ta)}
 	case slip.List:
 		for _, v := range ta {
-			if num, _ := v.(slip.Fixnum); 0 < num {
+			if num, ok := v.(slip.Fixnum); ok && 0 <= num {
 				dims = append(dims, int(num))
 			} else {
 				slip.TypePanic(s, depth, "dimensions", args[0], "list of positive fixnums")
@@ -112,7 +112,7 @@ func (f *MakeArray) Call(s *slip.Scope, args slip.List, depth int) slip.Object {
 	if option, has := slip.GetArgsKeyValue(rest, slip.Symbol(":initial-contents")); has {
 		if list, ok := option.(slip.List); ok {
 			initContents = list
-		} else {
+		} else if option != nil { // nil is the empty list
 			slip.TypePanic(s, depth, ":initial-contents", option, "list")
 		}
 	}
